@@ -15,7 +15,40 @@ import (
 type Locker = sync.Locker
 type WaitGroup = sync.WaitGroup
 type Map = sync.Map
-type Pool = sync.Pool
+
+// Pool models sync.Pool deterministically and adversarially: Get hands back the
+// most recently Put object whenever there is one (sync.Pool may do exactly
+// that, on any goroutine), so an object still referenced after its Put is seen
+// to be reused on every schedule in which another Get follows.
+type Pool struct {
+	New  func() any
+	mu   sync.Mutex
+	free []any
+}
+
+func (p *Pool) Get() any {
+	p.mu.Lock()
+	if n := len(p.free); n > 0 {
+		x := p.free[n-1]
+		p.free = p.free[:n-1]
+		p.mu.Unlock()
+		return x
+	}
+	p.mu.Unlock()
+	if p.New != nil {
+		return p.New()
+	}
+	return nil
+}
+
+func (p *Pool) Put(x any) {
+	if x == nil {
+		return
+	}
+	p.mu.Lock()
+	p.free = append(p.free, x)
+	p.mu.Unlock()
+}
 
 type Mutex struct{ mu sync.Mutex }
 
@@ -101,3 +134,46 @@ func OnceFunc(f func()) func() {
 	var o Once
 	return func() { o.Do(f) }
 }
+
+// OnceValue / OnceValues: as in package sync, on top of the modelled Once
+// (panics of f are not re-raised on later calls; none of this code relies on it).
+func OnceValue[T any](f func() T) func() T {
+	var o Once
+	var v T
+	return func() T {
+		o.Do(func() { v = f() })
+		return v
+	}
+}
+
+func OnceValues[T1, T2 any](f func() (T1, T2)) func() (T1, T2) {
+	var o Once
+	var v1 T1
+	var v2 T2
+	return func() (T1, T2) {
+		o.Do(func() { v1, v2 = f() })
+		return v1, v2
+	}
+}
+
+func (m *RWMutex) TryLock() bool {
+	if verifrt.Sync != nil {
+		panic("vsync: TryLock is not modelled")
+	}
+	return m.mu.TryLock()
+}
+
+func (m *RWMutex) TryRLock() bool {
+	if verifrt.Sync != nil {
+		panic("vsync: TryRLock is not modelled")
+	}
+	return m.mu.TryRLock()
+}
+
+// Cond is the real condition variable over a (possibly modelled) Locker. A Wait
+// under the cooperative scheduler would block the only running thread; code that
+// waits on conditions is outside what the scheduler models (reported as a
+// deadlock of the scenario).
+type Cond = sync.Cond
+
+func NewCond(l Locker) *Cond { return sync.NewCond(l) }
